@@ -93,6 +93,8 @@ class ListModel:
         if p is None:
             return ('err', False)
         cur = self.v[p]
+        if cur is None:
+            return ('err', False)
         self.v[p] = cur + x if op == '+=' else cur - x
         return ('val', None)
 
@@ -144,6 +146,8 @@ class DictModel:
     def cwrite(self, k, op, x):
         k = key_text(k)
         if k not in self.d:
+            return ('err', False)
+        if self.d[k] is None:
             return ('err', False)
         self.d[k] = self.d[k] + x if op == '+=' else self.d[k] - x
         return ('val', None)
